@@ -2,6 +2,7 @@ mod codes;
 mod edns;
 mod hdr;
 mod hostile;
+mod inspect;
 mod msg;
 mod name;
 mod nametext;
@@ -24,6 +25,7 @@ fn main() {
         "rdata" => rdata::run(&a),
         "packet" => packet::run(&a),
         "edns" => edns::run(&a),
+        "inspect" => inspect::run(&a),
         "framing" => hostile::run_framing(&a),
         "hostile" => hostile::run_hostile(&a),
         t => {
